@@ -16,6 +16,9 @@ def run(tier):
     tmp = tempfile.mkdtemp(prefix="c17_", dir=os.path.join(VERIF, ".cache"))
     try:
         # library values through the harness, one behaviour per configuration
+        for j in jobs:      # a row's depth written as a decimal string is the depth of its query
+            for st in j["behaviour"]["steps"]:
+                if "depthstr" in st: st["depth"] = float(st.pop("depthstr"))
         res = replay.replay(exes["replay"], [json.dumps(j["behaviour"]) for j in jobs], shards=16, dump=True)
         c.add_replay(res, "library replies for every row (World::properties in-process)")
         trace = []
